@@ -24,5 +24,9 @@ CFG = {
              'index (full_rank) above; full_rank = enumerated rank is a theorem (Proofs/IndexToPathProofs.v)'],
  'explanation': 'Theorems over the model (IndexToPath with its int32/uint64 wraps: common-prefix shortcut, descent loop, idxToPath table; '
                 'PathToIndex full-tree closed form): for 0<=h<=30 and every index of the full tree IndexToPath h idx is the word of the '
-                'idx-th node in pre-order, PathToIndex maps it back to idx, and IndexToPath inverts PathToIndex on every node.',
+                'idx-th node in pre-order, PathToIndex maps it back to idx, and IndexToPath inverts PathToIndex on every node. '
+                'Route lemmas as theorems: table rows = pure descent (h<=3), loop+table = pure descent, shortcut = fixed descent steps, '
+                'descent <-> pre-order index, checker exactness. Widened: order of results = order of indices (injectivity), '
+                'PathLen/PathHeight/PathBits/PathMask/PathStr of the result describe the idx-th node, PathToIndexLoose on a full tree '
+                '= (index, 1), Height(2^(h+1)-1) = h.',
 }
